@@ -6,7 +6,9 @@
   answers what the model predicts for the code generated from the schema:
     accepted=<bool> names=<chosen,chosen,...> problems=<item;item;...>
   `accepted`: the model's necessary conditions for sbeppc to accept the schema
-  hold (names, values, ranges, uniqueness, layout) and every literal site the
+  hold (names, values, ranges, uniqueness, layout, integer header members, header
+  values in range, distinct enumerators), so do the validator rules as C08
+  states them (`Spec.Rules.violations s = []`), and every literal site the
   model enumerates carries a value that passed the validator's check for it
   (`Site.validated`, the hypothesis of `literal_sites_fit_partial`).  One item per predicted
   problem: `class|entity|name|on`, `on` ∈ all | gcc | clang | pre17 | maybe
@@ -40,51 +42,6 @@ def literalProblems (s : SchemaDef) (x : Literals.SchemaTexts) : List Scope.Prob
     | .ok => none
     | v => some ⟨"literal-" ++ site.kind, site.entity, v.name, verdictOn v⟩)
 
-/-- header members whose type cannot be used where the runtime does arithmetic with it -/
-def headerTypeProblems (s : SchemaDef) : List Scope.Problem :=
-  let fp (entity header member : String) : List Scope.Problem :=
-    match Literals.headerMemberPrim? s.types header member with
-    | some p => if p.isFloat then [⟨"floating-point-header-member", entity, member, "all"⟩] else []
-    | none => []
-  let rec groups (path : String) (fuel : Nat) (gs : List GroupDef) : List Scope.Problem :=
-    match fuel with
-    | 0 => []
-    | fuel + 1 =>
-      gs.flatMap (fun g =>
-        match g with
-        | .mk n _ dim _ _ inner datas _ =>
-          fp (path ++ n) dim "blockLength" ++ fp (path ++ n) dim "numInGroup" ++
-          datas.flatMap (fun d => fp (path ++ n ++ "." ++ d.name) d.type "length") ++
-          groups (path ++ n ++ ".") fuel inner)
-  s.messages.flatMap (fun m =>
-    -- the wire block length of a message is only added to a pointer where a member follows the header
-    (if m.fields.any (fun f => !Scope.constField s.types f) || !m.groups.isEmpty || !m.datas.isEmpty then
-       fp ("messages." ++ m.name) s.headerType "blockLength" else []) ++
-    m.datas.flatMap (fun d => fp ("messages." ++ m.name ++ "." ++ d.name) d.type "length") ++
-    groups ("messages." ++ m.name ++ ".") 64 m.groups)
-
-/-- two enumerators of one enum with the same value: duplicate `case` in the generated `switch` -/
-def duplicateCaseProblems (s : SchemaDef) : List Scope.Problem :=
-  let rec go (path : String) (fuel : Nat) (es : List Elem) : List Scope.Problem :=
-    match fuel with
-    | 0 => []
-    | fuel + 1 =>
-      es.flatMap (fun e =>
-        match e with
-        | .enum n enc _ values _ =>
-          let pn := match encPrim s.types enc with | .ok x => x | .error _ => ""
-          match Literals.primOf? pn with
-          | some p =>
-            let vs := values.filterMap (fun v => Literals.enumeratorValue (pn == "char") p v.value)
-            let rec dup : List Int → Bool
-              | [] => false
-              | x :: xs => xs.contains x || dup xs
-            if dup vs then [⟨"duplicate-case", path ++ n, n, "all"⟩] else []
-          | none => []
-        | .composite n _ elems _ => go (path ++ n ++ ".") fuel elems
-        | _ => [])
-  go "types." 64 s.types
-
 /-- the two descriptions of what lands in the `detail` namespaces (the generator's `declared` log, about which
     `detail_*_distinct` are proved, and the declaration list the scope problems are computed from) must agree -/
 def consistencyProblems (s : SchemaDef) : List Scope.Problem :=
@@ -112,7 +69,8 @@ def chosenNames (s : SchemaDef) : List String :=
   ((Scope.tagTypesName s.types).map (fun n => ["C:types:" ++ n])).getD [] ++
   ((Scope.tagMessagesName s.messages).map (fun n => ["C:messages:" ++ n])).getD []
 
-def accepted (s : SchemaDef) : Bool := acceptedB s
+/-- the model's necessary conditions and the validator rules of C08 -/
+def accepted (s : SchemaDef) : Bool := acceptedB s && rulesHold s
 
 def fmtProblem (p : Scope.Problem) : String :=
   p.cls ++ "|" ++ p.entity ++ "|" ++ p.name ++ "|" ++ p.on
